@@ -201,6 +201,16 @@ def main():
     ids = read(repo, 'src/ids.rs')
     L.append('Definition fs_key_prefix_max : N := %d.' % const_int(ids, 'MODULE_FS_KEY_PREFIX_MAX_LEN', 'src/ids.rs'))
 
+    # (C13) machine id: the non-ASCII characters whose Unicode lowercase form contains an ASCII character
+    # (computed from this interpreter's Unicode database; str::to_lowercase uses the same SpecialCasing data)
+    low = []
+    for c in range(128, 0x110000):
+        if 0xD800 <= c <= 0xDFFF: continue
+        l = chr(c).lower()
+        if any(ord(x) < 128 for x in l):
+            low.append('(%d, [%s])' % (c, '; '.join(str(ord(x)) for x in l)))
+    L.append('Definition lower_into_ascii : list (N * list N) := [%s].' % '; '.join(low))
+
     # (C12/C03) render option tables
     render_tables(repo, L)
 
